@@ -244,6 +244,11 @@ func (e *rlEnv) flush(w *verifsim.NDJSONWriter, name string, withAttempts bool) 
 			if !withAttempts || ev["probe"].(bool) {
 				continue
 			}
+			if deadConn[ev["conn"].(int)] {
+				// the server got round to reading this request only after the client had given the connection up (and has
+				// long since retried elsewhere): a late observation, no attempt of its own at this point of the history
+				continue
+			}
 			row := ev["row"].(string)
 			if i := strings.LastIndex(row, "#"); i >= 0 && (ev["method"] == "Get" || ev["method"] == "Mutate") {
 				open[key{ev["conn"].(int), ev["id"].(int)}] = row[i+1:]
@@ -265,7 +270,16 @@ func (e *rlEnv) flush(w *verifsim.NDJSONWriter, name string, withAttempts bool) 
 				w.Write(map[string]any{"ev": "attempt", "id": id, "class": cls, "wal": strings.Contains(fmt.Sprint(ev["stack"]), "log is closed")})
 			}
 		case "connClosed":
+			// the client closed the connection: what was outstanding on it met a connection-level failure NOW - before the
+			// client retries it elsewhere - whenever the server gets round to answering it (an answer that comes later is
+			// never seen; logging the attempt then would put it after the retry it caused)
 			deadConn[ev["conn"].(int)] = true
+			for k, id := range open {
+				if k.conn == ev["conn"].(int) {
+					delete(open, k)
+					w.Write(map[string]any{"ev": "attempt", "id": id, "class": "drop", "wal": false})
+				}
+			}
 		case "drop":
 			deadConn[ev["conn"].(int)] = true
 			k := key{ev["conn"].(int), ev["id"].(int)}
